@@ -327,7 +327,9 @@ def exec_suite(binp, rundir, sname, scfg, tier, seed, prop, extra_seed_offset=0,
                     res.errors.append(f"driver failed on {label}: rc={drc} {derr[-500:]}")
                 else:
                     compare(sname, text, open(mp).read(), res, prop)
-            if rc == 0 or restarts > 8 or not label.startswith("gen") and rc != 0 and restarts > 3:
+            # a timeout is not retried (a hanging implementation would cost the full budget again and again);
+            # crashes are skipped over at most three times
+            if rc == 0 or rc == -9 or restarts > 3 or (time.time() - t0) > 2 * timeout:
                 break
     res.wall = time.time() - t0
     return res
